@@ -209,7 +209,7 @@ type VerifCAResult struct {
 	Events    []string // "dropped:<trigger>" | "buffered" | "received:<type>" | "vn_received"
 }
 
-func verifErrClass(err error) string {
+func verifCAErrClass(err error) string {
 	if err == nil {
 		return ""
 	}
@@ -264,9 +264,9 @@ func (v *VerifCA) Handle(data []byte) (res VerifCAResult) {
 	p := receivedPacket{buffer: buf, remoteAddr: v.sc.remote, rcvTime: monotime.Now(), data: buf.Data}
 	processed, err := v.c.handleOnePacket(p, 0)
 	res.Processed = processed
-	res.Err = verifErrClass(err)
+	res.Err = verifCAErrClass(err)
 	if ce := v.c.closeErr.Load(); ce != nil {
-		res.Closed = verifErrClass(ce.err)
+		res.Closed = verifCAErrClass(ce.err)
 		if res.Closed == "" {
 			res.Closed = "nil"
 		}
@@ -309,7 +309,7 @@ func (v *VerifCA) HandleTP(iscid, odcid []byte, hasRSCID bool, rscid []byte) (cl
 	}
 	err := v.c.handleTransportParameters(params)
 	v.rec.take()
-	return verifErrClass(err)
+	return verifCAErrClass(err)
 }
 
 // DropInitialKeys performs what the connection does when it sends its first Handshake packet
@@ -322,7 +322,7 @@ func (v *VerifCA) DropInitialKeys() (cls string) {
 	}()
 	err := v.c.dropEncryptionLevel(protocol.EncryptionInitial, monotime.Now())
 	v.rec.take()
-	return verifErrClass(err)
+	return verifCAErrClass(err)
 }
 
 // ---- packet crafting (attacker / peer side) ----
